@@ -251,14 +251,13 @@ def r3(R3, cfg, F):
 def r4(R4, cfg, F, feats):
     n = 0
     for b in F.fn_bodies():
-        for bb, j, s in b.assigns():
-            rv = s['rv']
-            if rv['k'] != 'aggregate' or rv.get('adt') != S:
-                continue
+        # construction sites: the struct literal, or a call of the unsafe constructor from_utf8_unchecked (which is
+        # the struct literal behind `unsafe`): either way the bytes must be UTF-8 by construction
+        sites = [(bb, s['rv']['ops'][0], '%s:%s' % (b.file, s['line'])) for bb, j, s in b.assigns() if s['rv']['k'] == 'aggregate' and s['rv'].get('adt') == S]
+        sites += [(c.bb, c.args[0], c.loc()) for c in b.calls() if c.callee and c.callee.best == S + '::from_utf8_unchecked' and c.args]
+        for bb, op, loc in sites:
             n += 1
-            op = rv['ops'][0]
             sig = F.fns.get(b.path) or F.fns.get(b.root) or {}
-            loc = '%s:%s' % (b.file, s['line'])
             roots = b.call_roots(op)
             rn = [r.callee.best for r in roots if r.callee]
             if sig.get('safety') == 'Unsafe':
@@ -277,15 +276,8 @@ def r4(R4, cfg, F, feats):
                 # the parameter itself: must be behind str::from_utf8(&bytes)? success
                 fu = [c for c in b.calls() if c.callee and c.callee.best == 'std::str::from_utf8' and b.origins(c.args[0], passthrough=common.pt_deref) == {('arg', 1)}]
                 if len(fu) == 1:
-                    br = [c for c in b.calls() if c.callee and c.callee.defp == 'std::ops::Try::branch' and b.access_path(c.args[0]) == ['call@bb%d' % fu[0].bb]]
-                    if len(br) == 1:
-                        sw = b.primary_switch(br[0].dest['l'])
-                        cont = b.variant_edge(sw, 0) if sw is not None else None
-                        ok = cont is not None and bb not in b.reachable([0], removed_edges=[(sw, cont)])
-                    else:
-                        sw = b.primary_switch(fu[0].dest['l'])
-                        okt = b.variant_edge(sw, 0) if sw is not None else None
-                        ok = okt is not None and bb not in b.reachable([0], removed_edges=[(sw, okt)])
+                    # (normal form) the construction runs only when that validation returned Ok
+                    ok = common.guarded_by_variant(b, bb, [['call@bb%d' % fu[0].bb]], 0)
                 why = 'a SharedString is built from unchecked bytes: it must be dominated by a successful str::from_utf8 of the same bytes'
             R4.check(ok, cfg, b.path, 'utf8-by-construction', why, loc)
     if n < 4:
